@@ -47,6 +47,8 @@ struct Bucket {
     latency: u64,
     frame: usize,
     last_served_listing: Option<(Vec<String>, bool)>,
+    /// S3 may return fewer keys than max-keys and flag the page as truncated
+    short_page: Option<usize>,
 }
 
 impl Backend for Bucket {
@@ -98,6 +100,13 @@ impl Backend for Bucket {
                         last_modified: s3sim::rfc3339_ms(o.stamp_ms, o.fraction),
                         size: o.listed_size.clone(),
                     });
+                }
+                if let Some(m) = self.short_page {
+                    if objects.len() > m {
+                        objects.truncate(m);
+                        keys.truncate(m);
+                        truncated = true;
+                    }
                 }
                 match &self.fault {
                     Fault::BadSize(s) => {
@@ -153,7 +162,7 @@ const SEG_ALPHABETS: [&str; 6] = [
     "&<>\"' ",
     "åßçđéñ雷達데이터🌩",
     "&amp;&lt;]]><!--",
-    "%#?+=;:@!$*(),~",
+    "%#?+=;:@!$*(),~\t ",
     "/",
 ];
 
@@ -197,7 +206,7 @@ fn draw_segment(tape: &mut Tape, for_download: bool, allow_slash: bool) -> Strin
     // are outside the statement), no leading/trailing blanks
     let parts: Vec<String> = s
         .split('/')
-        .map(|p| p.trim_matches(' ').to_string())
+        .map(|p| if for_download { p.trim_matches(' ').to_string() } else { p.to_string() })
         .filter(|p| !p.is_empty())
         .map(|p| if p == "." || p == ".." { "dot".to_string() } else { p })
         .collect();
@@ -302,9 +311,9 @@ impl Check for C17 {
     fn plan(&self, tier: Tier) -> Vec<Section> {
         match tier {
             Tier::Quick => vec![
-                Section { name: "fault-free-calls", runs: 6_000 },
-                Section { name: "calls-with-response-faults", runs: 6_000 },
-                Section { name: "large-listings-999..1001", runs: 60 },
+                Section { name: "fault-free-calls", runs: 30_000 },
+                Section { name: "calls-with-response-faults", runs: 30_000 },
+                Section { name: "large-listings-999..1001", runs: 150 },
             ],
             Tier::Thorough => vec![
                 Section { name: "fault-free-calls", runs: 400_000 },
@@ -328,7 +337,7 @@ impl Check for C17 {
                "stub": ["reqwest client + TLS + TCP + S3 (in-process endpoint behind the reqwest::get seam)"]})
     }
     fn required_probes(&self, _tier: Tier) -> Vec<&'static str> {
-        vec!["call.list_files", "call.download_file", "call.list_chunks", "call.download_chunk", "truncated_archive_listing", "key_with_xml_special", "key_with_non_ascii", "key_with_slash_in_name", "not_found_download", "fault.status", "fault.send_error", "fault.body_cut", "fault.xml_cut", "fault.bad_size", "fault.bad_last_modified", "fault.extra_elements", "fault.bad_last_modified_header", "listing_1000", "listing_1001"]
+        vec!["call.list_files", "call.download_file", "call.list_chunks", "call.download_chunk", "truncated_archive_listing", "key_with_xml_special", "key_with_non_ascii", "key_with_slash_in_name", "not_found_download", "fault.status", "fault.send_error", "fault.body_cut", "fault.xml_cut", "fault.bad_size", "fault.bad_last_modified", "fault.extra_elements", "fault.bad_last_modified_header", "listing_1000", "listing_1001", "short_truncated_page"]
     }
     fn budget_s(&self, tier: Tier) -> u64 {
         match tier {
@@ -448,21 +457,23 @@ impl Check for C17 {
                 }
             };
             let fault = if faulty { draw_fault(tape, matches!(call, Call::ListFiles | Call::ListChunks(_))) } else { Fault::None };
-            calls.push((call, fault));
+            let short = if !large && matches!(call, Call::ListFiles | Call::ListChunks(_)) && tape.draw(6) == 5 { Some(tape.draw(8) as usize) } else { None };
+            calls.push((call, fault, short));
         }
 
         let site2 = site.clone();
         let results = s3sim::with_world(
             tape,
             ctx,
-            |_core| Bucket { archive: archive_map, realtime: realtime_map, fault: Fault::None, latency, frame, last_served_listing: None },
+            |_core| Bucket { archive: archive_map, realtime: realtime_map, fault: Fault::None, latency, frame, last_served_listing: None, short_page: None },
             |world, rt| {
                 rt.block_on(async {
                     let mut out = Vec::new();
-                    for (call, fault) in &calls {
+                    for (call, fault, short) in &calls {
                         let log_before = world.borrow().core.log.len();
                         {
                             let mut w = world.borrow_mut();
+                            w.backend.short_page = *short;
                             w.backend.fault = fault.clone();
                             w.backend.last_served_listing = None;
                         }
@@ -503,7 +514,7 @@ impl Check for C17 {
         // ---- oracle
         let archive_prefix = format!("{}/{}", date_prefix, site);
         let rt_prefix = format!("{}/{}/", site, volume);
-        for (ci, ((call, fault), (reqs, served, res))) in calls.iter().zip(results.into_iter()).enumerate() {
+        for (ci, ((call, fault, short), (reqs, served, res))) in calls.iter().zip(results.into_iter()).enumerate() {
             ctx.evaluations += 1;
             let fname = match fault {
                 Fault::None => "none",
@@ -538,11 +549,15 @@ impl Check for C17 {
             match call {
                 Call::ListFiles => {
                     ctx.count("call.list_files");
-                    let want_req = ReqKind::List { prefix: archive_prefix.clone(), max_keys: None };
-                    if req.host != s3sim::ARCHIVE_HOST || req.kind != want_req {
-                        ctx.violate("request-shape", "list_files".into(), format!("list_files({}, {}) requested {} (parsed {:?}), expected a list-type=2 listing of prefix {:?} on the archive bucket", site, date, req.url, req.kind, archive_prefix));
-                        return;
-                    }
+                    // max-keys is the caller's business (absent = S3's default of 1000)
+                    let req_max = match &req.kind {
+                        ReqKind::List { prefix, max_keys } if *prefix == archive_prefix && req.host == s3sim::ARCHIVE_HOST => max_keys.unwrap_or(1000).min(1000),
+                        _ => {
+                            ctx.violate("request-shape", "list_files".into(), format!("list_files({}, {}) requested {} (parsed {:?}), expected a list-type=2 listing of prefix {:?} on the archive bucket", site, date, req.url, req.kind, archive_prefix));
+                            return;
+                        }
+                    };
+                    let page_max = short.map(|m| m.min(req_max)).unwrap_or(req_max);
                     let under: Vec<&String> = ref_archive.keys().filter(|k| k.starts_with(&archive_prefix)).collect();
                     let r = res.0.unwrap();
                     ctx.class.u(under.len() as u64);
@@ -557,8 +572,11 @@ impl Check for C17 {
                     }
                     match fault {
                         Fault::None | Fault::ExtraElements | Fault::BadLastModified => {
-                            if under.len() > 1000 {
+                            if under.len() > page_max {
                                 ctx.count("truncated_archive_listing");
+                                if short.is_some() {
+                                    ctx.count("short_truncated_page");
+                                }
                                 match &r {
                                     Err(Error::AWS(AWSError::TruncatedListObjectsResponse)) => {}
                                     other => {
@@ -618,7 +636,7 @@ impl Check for C17 {
                         ctx.violate("request-shape", "list_chunks_in_volume".into(), format!("list_chunks_in_volume({}, {}, {}) requested {} (parsed {:?})", site, volume, max, req.url, req.kind));
                         return;
                     }
-                    let under: Vec<(&String, &Obj)> = ref_realtime.iter().filter(|(k, _)| k.starts_with(&rt_prefix)).take(*max).collect();
+                    let under: Vec<(&String, &Obj)> = ref_realtime.iter().filter(|(k, _)| k.starts_with(&rt_prefix)).take(short.map(|m| m.min(*max)).unwrap_or(*max)).collect();
                     let r = res.1.unwrap();
                     ctx.class.u(under.len() as u64);
                     if !under.is_empty() {
@@ -722,7 +740,7 @@ impl Check for C17 {
         }
         if ctx.want_sample && ctx.nontrivial {
             ctx.sample = Some(json!({"site": site, "date": date.to_string(), "volume": volume, "objects": n_objects,
-                "some_keys": ref_archive.keys().take(4).collect::<Vec<_>>(), "calls": calls.iter().map(|(c, f)| format!("{:?} / {:?}", c, f)).collect::<Vec<_>>()}));
+                "some_keys": ref_archive.keys().take(4).collect::<Vec<_>>(), "calls": calls.iter().map(|(c, f, s)| format!("{:?} / {:?} / short page {:?}", c, f, s)).collect::<Vec<_>>()}));
         }
         let _ = Utc.timestamp_millis_opt(0);
     }
